@@ -295,6 +295,35 @@ def _coherence(g, dist, fam, params, rd, discrete, L, viol, stats):
         return
     lo = rd.q(1e-9)
     hi = rd.q(1 - 1e-9)
+    # one accumulator advanced step by step (how mol_prob walks along a chain) must be given, at every step, the probability a
+    # freshly built interval with the same ends gets: the value depends on the ends, not on what was asked before
+    def cdf_from_L(x):
+        return float(dist.prob_mw(_interval(g, L, x)))
+
+    try:
+        acc = g.mol_prob.RememberAdd(L)
+        for frac in (0.08, 0.3, 0.5, 0.52, 0.75, 0.97):
+            target = float(rd.q(frac))
+            if discrete:
+                target = float(int(target)) + 0.5
+            d = target - acc.value
+            if d <= 0:
+                continue
+            prev_val = acc.value
+            acc += d
+            p_run = float(dist.prob_mw(acc))
+            # expected: difference of the reported cumulative law at the two ends, each asked through an interval that
+            # starts below the support (other ends than the accumulator's, so nothing remembered for it can be re-used)
+            p_fresh = cdf_from_L(acc.value) - (cdf_from_L(prev_val) if prev_val > L else 0.0)
+            stats["accumulator_steps"] = stats.get("accumulator_steps", 0) + 1
+            if not (abs(p_run - p_fresh) <= 1e-9 + 1e-9 * abs(p_fresh)):
+                viol("interval_depends_on_call_history",
+                     f"P({prev_val!r} < M <= {acc.value!r}) is {p_fresh!r} by the reported cumulative law but {p_run!r} for an accumulator that was advanced to these ends")
+                break
+    except SimAbort:
+        raise
+    except Exception as exc:
+        viol("reported_law_raises", f"prob_mw(advanced accumulator) raised {exc!r}")
     if discrete:
         k_lo = max(0, int(math.floor(lo)) - 5)
         k_hi = int(math.ceil(hi)) + 5
